@@ -8,8 +8,8 @@ SV == {"empty", "plain", "escapes", "unicode"}
 SVq == {"empty", "escapes"}
 LV == {"empty", "nested", "onetuple", "withinf", "withninf"}
 LVq == {"empty", "onetuple", "withinf", "withninf"}
-TV == {"none", "pair", "one"}
-TVq == {"none", "one"}
+TV == {"none", "pair", "one", "eset", "set1"}       \* eset: set(), set1: {3}
+TVq == {"none", "one", "eset"}
 SubV == {"none", "inner", "innerchanged"}
 DV == {"default", "empty", "subset", "changed", "superset"}
 DVq == {"default", "empty", "subset"}
